@@ -19,12 +19,21 @@
 //        re-synthesised frame sample reaches the output multiplied by win^a / W);
 //       frame layout of the three ranges against each other; overlap >= nwin rejected by iscola and stft;
 //       a signal shorter than one window (zero frames).
-// CORR: ifft / irfft / iscola / stft / istft calls replayed by the Lean model (Model/Ifft.lean) at Float.
+//   * histories with REJECTED calls (section 4): every result above must also hold when calls that throw (odd irfft lengths by every
+//       entry point, wrong bin counts, plan objects applied to the wrong length, istft with an odd nfft / frames of the wrong length,
+//       stft with overlap >= nwin, empty inputs, n <= 0) precede it on the same thread: all histories of length <= 3 (thorough 4) over a
+//       20-letter alphabet of valid and rejected calls around a base length (n, n-2, n+2 valid; n+1, n-1 rejected), random longer
+//       histories over several base lengths; each valid result is compared BIT-EXACTLY with the same call in a fresh thread and
+//       against the round-trip bound; each rejected call must throw.  The sweeps 1-3 issue rejected calls for the neighbouring
+//       lengths before half of their lengths as well (worker threads live across many lengths).
+// CORR: ifft / irfft / iscola / stft / istft calls replayed by the Lean model (Model/Ifft.lean) at Float (the model is stateless:
+//       results obtained after rejected calls go through the same correspondence).
 #include "common.hpp"
 #include <thread>
 #include <atomic>
 #include <algorithm>
 #include <set>
+#include <mutex>
 using namespace dsplib;
 typedef long double ld;
 
@@ -42,6 +51,7 @@ typedef std::vector<C> CV;
 // ---------------------------------------------------------------- per-task result (threads)
 struct Res {
     std::vector<std::pair<std::string, std::string>> corr;
+    std::vector<std::pair<std::string, std::string>> hcorr;   // correspondence cases from histories: printed once per distinct (call, result)
     std::vector<std::pair<std::string, std::string>> fails;
     std::map<std::string, long long> stats;
     std::map<std::string, double> worst;   // max err/bound per category
@@ -52,8 +62,12 @@ struct Res {
 static vh::Out out;
 static std::map<std::string, double> g_worst;
 
+static std::set<std::string> g_hcorr_seen;
+
 static void merge(const Res& r) {
     for (auto& c : r.corr) out.corr(c.first, c.second);
+    for (auto& c : r.hcorr)
+        if (g_hcorr_seen.insert(c.first + "|" + c.second).second) { out.corr(c.first, c.second); out.stat("corr_cases_from_histories"); }
     for (auto& f : r.fails) out.fail(f.first, f.second);
     for (auto& s : r.stats) out.stat(s.first, s.second);
     for (auto& w : r.worst) g_worst[w.first] = std::max(g_worst[w.first], w.second);
@@ -282,6 +296,13 @@ static std::string digest(const arr_real& y) {
     return s + " " + vh::hx(a[0]) + " " + vh::hx(a[1]);
 }
 
+static void reject_neighbours(int n, uint64_t seed, Res& R);   // section 4
+template<class F>
+static bool hthrows_fwd(F f) {
+    try { f(); } catch (const std::exception&) { return true; }
+    return false;
+}
+
 // ================================================================ 1. ifft
 struct IfftCfg { bool corr_all; bool corr_gauss; bool corr_digest; };
 
@@ -298,6 +319,16 @@ static void ifft_sweep_body(int n, uint64_t seed, const IfftCfg& cfg, Res& R) {
     IfftPlan plan(n);
     FftPlan fplan(n);
     if (plan.size() != n) R.fails.push_back({"C02:ifft-size", wit("IfftPlan::size", n, 0, seed, plan.size(), n)});
+    if ((n + seed) % 2 == 0 && n <= 4096) {   // the plan objects used below have rejected inputs of the wrong length first (n+1, n-1, empty)
+        for (int m : {n + 1, n - 1, 0}) {
+            arr_cmplx Z(m);
+            for (int i = 0; i < m; ++i) Z[i] = cmplx_t{gen_re(i, seed + n), gen_im(i, seed + n)};
+            const bool t1 = hthrows_fwd([&] { (void)plan(Z); }), t2 = hthrows_fwd([&] { (void)fplan(Z); });
+            R.n_oracle += 2;
+            if (!t1 || !t2) R.fails.push_back({"C02:ifft-wrong-size-accepted", "{\"entry\":\"IfftPlan(n)(X) / FftPlan(n)(X)\",\"n\":" + std::to_string(n) + ",\"X_size\":" + std::to_string(m) + "}"});
+        }
+        R.stats["ifft_lengths_after_rejected_calls"]++;
+    }
     R.stats[full ? "ifft_lengths_all_samples" : "ifft_lengths_sampled"]++;
     for (int cls = 0; cls < NCLS; ++cls) {
         if (!full && cls != GAUSS && cls != IMPULSE && cls != TONE) continue;
@@ -382,6 +413,9 @@ static void irfft_sweep_body(int n, uint64_t seed, const IfftCfg& cfg, Res& R) {
     const int h = n / 2;
     const bool full = n <= 2048;
     Table T(n);
+    // half of the lengths are used right after their odd neighbours (and a wrong bin count) were rejected on this thread, the others before
+    const bool rejected_first = ((h + seed) % 2 == 0) && n <= 4096;
+    if (rejected_first) reject_neighbours(n, seed, R);
     IfftPlanR plan(n);
     if (plan.size() != n) R.fails.push_back({"C02:irfft-size", wit("IfftPlanR::size", n, 0, seed, plan.size(), n)});
     R.stats[full ? "irfft_lengths_all_samples" : "irfft_lengths_sampled"]++;
@@ -401,7 +435,8 @@ static void irfft_sweep_body(int n, uint64_t seed, const IfftCfg& cfg, Res& R) {
             for (int k = 0; k <= h; ++k) Xs[k] = cmplx_t{rng.gauss(), (k == 0 || k == h) ? 0.0 : rng.gauss()};
             for (int k = h + 1; k < n; ++k) Xs[k] = Xs[n - k].conj();
         }
-        const std::string small = n <= 12 ? ",\"x\":" + vh::jarr(x) : std::string();
+        const std::string small = std::string(rejected_first ? ",\"history\":\"after irfft / IfftPlanR calls for n+1 and n-1 and a wrong bin count were rejected on this thread\"" : "") +
+                                  (n <= 12 ? ",\"x\":" + vh::jarr(x) : std::string());
         const arr_real y = use_plan ? plan(X) : irfft(X, n);
         const arr_real yh = use_plan ? irfft(Xh, n) : plan(Xh);
         if (y.size() != n || yh.size() != n) { R.fails.push_back({"C02:irfft-size", wit("irfft(X, n)", n, cls, seed, y.size(), n, small)}); continue; }
@@ -456,7 +491,8 @@ static void irfft_sweep_body(int n, uint64_t seed, const IfftCfg& cfg, Res& R) {
         R.stats[std::string("irfft_class_") + CLS_NAME[cls]]++;
         if (cls == GAUSS && n <= 6) R.samples.push_back(wit("irfft(rfft(x), n)", n, cls, seed, diff_l2(y, x), 64 * ld(n) * EPSD * nx, small));
     }
-    // plan reuse
+    if (!rejected_first && n <= 4096) reject_neighbours(n, seed, R);
+    // plan reuse (the plan object has also seen the rejected calls above)
     {
         vh::Rng r2(seed ^ (uint64_t(n) << 22));
         const arr_real x = make_re(GAUSS, n, r2);
@@ -660,6 +696,19 @@ static void stft_grid_task(int nfft, int nwin, WinSpec ws, uint64_t seed, bool t
     vh::Rng rng(seed * 0x9e3779b97f4a7c15ULL + uint64_t(nfft) * 1000003ULL + uint64_t(nwin) * 7919ULL + uint64_t(ws.fam) * 131 + (ws.sym ? 1 : 0));
     const arr_real win = make_win(ws.fam, nwin, ws.sym);
     if (win.size() != nwin) { R.fails.push_back({"C02:harness-selfcheck", "{\"what\":\"window length\"}"}); return; }
+    if (ws.sym || nwin != nfft) {   // this configuration is used right after rejected stft / istft calls for the neighbouring sizes on this thread
+        const std::vector<arr_cmplx> F(2, arr_cmplx(nfft / 2 + 1));
+        const std::vector<arr_cmplx> F1(2, arr_cmplx(nfft / 2 + 2));
+        const bool t1 = hthrows_fwd([&] { (void)istft(F, win, nwin / 2, nfft + 1, StftRange::Onesided, OverlapMethod::Wola); });
+        const bool t2 = hthrows_fwd([&] { (void)istft(F, win, nwin / 2, nfft - 1, StftRange::Onesided, OverlapMethod::Ola); });
+        const bool t3 = hthrows_fwd([&] { (void)istft(F1, win, nwin / 2, nfft, StftRange::Onesided, OverlapMethod::Ola); });
+        const bool t4 = hthrows_fwd([&] { (void)stft(arr_real(4 * nwin), win, nwin, nfft, StftRange::Onesided); });
+        R.n_oracle += 4;
+        if (!t1 || !t2 || !t3 || !t4)
+            R.fails.push_back({"C02:stft-rejected-call-accepted", "{\"nfft\":" + std::to_string(nfft) + ",\"nwin\":" + std::to_string(nwin) + ",\"threw\":[" + std::to_string(t1) + "," + std::to_string(t2) + "," +
+                                                                   std::to_string(t3) + "," + std::to_string(t4) + "],\"calls\":\"istft nfft+1, istft nfft-1, istft frames of nfft/2+2 bins, stft overlap = nwin\"}"});
+        R.stats["stft_configs_after_rejected_calls"]++;
+    }
     for (int method = 0; method < 2; ++method) {
         std::vector<int> cola;
         for (int ov = 0; ov < nwin; ++ov) {
@@ -813,6 +862,300 @@ static void stft_misc(uint64_t seed, bool thorough, Res& R) {
     (void)thorough;
 }
 
+// ================================================================ 4. histories that include rejected calls
+// A call that throws must leave nothing behind: every later valid call on the same thread / the same objects gives the result it gives
+// in a fresh thread (bit for bit) and satisfies the property's bounds.
+//   valid:    F irfft(rfft(x), n)   H irfft(first n/2+1 bins, n)   P IfftPlanR(n)(rfft(x))   1 irfft(X) (one argument)   C ifft(fft(x))
+//             T istft(stft(x)) with nfft = n (periodic Hann, 50 % overlap, ola, range n mod 3)
+//             R one IfftPlanR(n) object: rejects a wrong bin count, then inverts rfft(x)
+//   rejected: o irfft(n bins, odd n)   q irfft(n/2+1 bins, odd n)   O IfftPlanR(odd n)   u irfft(X) with an odd number of bins
+//             w irfft(n/2 bins, n) and irfft(n+1 bins, n)   S istft with odd nfft   U istft with frames one bin too long   V stft with overlap = nwin
+//             j IfftPlan(n)(n+1 samples)   E ifft / irfft of an empty array, irfft(X, 0), irfft(X, -2)
+struct HL { char kind; int n; };
+static bool hl_rejected(char k) { return std::strchr("oqOuwSUVjE", k) != nullptr; }
+static std::string hl_str(const HL& l) { return std::string(1, l.kind) + std::to_string(l.n); }
+static const char* hl_entry(char k) {
+    switch (k) {
+    case 'F': return "irfft(rfft(x), n)";
+    case 'H': return "irfft(rfft(x)[0..n/2], n)";
+    case 'P': return "IfftPlanR(n)(rfft(x))";
+    case '1': return "irfft(rfft(x))";
+    case 'C': return "ifft(fft(x))";
+    case 'T': return "istft(stft(x)), nfft = n";
+    case 'R': return "IfftPlanR(n) object after it rejected a wrong bin count";
+    case 'o': return "irfft(X[n], n), n odd";
+    case 'q': return "irfft(X[n/2+1], n), n odd";
+    case 'O': return "IfftPlanR(n), n odd";
+    case 'u': return "irfft(X[n]), n odd";
+    case 'w': return "irfft(X[n/2], n) / irfft(X[n+1], n)";
+    case 'S': return "istft(frames, nfft = n), n odd";
+    case 'U': return "istft(frames of n/2+2 bins, nfft = n, onesided)";
+    case 'V': return "stft(x, win, overlap = nwin, nfft = n)";
+    case 'j': return "IfftPlan(n)(X[n+1])";
+    default: return "ifft(empty) / irfft(empty) / irfft(X, 0) / irfft(X, -2)";
+    }
+}
+static std::string hist_str(const std::vector<HL>& h, int upto) {
+    std::string s = "[";
+    for (int i = 0; i <= upto && i < int(h.size()); ++i) { if (i) s += ","; s += "\"" + hl_str(h[i]) + "\""; }
+    return s + "]";
+}
+static arr_real hin_r(int n, uint64_t seed) {
+    vh::Rng r(seed * 1315423911ULL + uint64_t(n) * 2654435761ULL + 99);
+    arr_real x(n);
+    for (int i = 0; i < n; ++i) x[i] = r.gauss();
+    return x;
+}
+static arr_cmplx hin_c(int n, uint64_t seed) {
+    vh::Rng r(seed * 1315423911ULL + uint64_t(n) * 2654435761ULL + 177);
+    arr_cmplx x(n);
+    for (int i = 0; i < n; ++i) x[i] = cmplx_t{r.gauss(), r.gauss()};
+    return x;
+}
+static StftCase hl_stft_case(int n, uint64_t seed) {
+    return StftCase{n, n, HANN, false, n / 2, n % 3, 0, 3 * n + n / 2 + (n > 2 ? 1 : 0), S_GAUSS, seed, false};
+}
+
+struct HVal {
+    bool threw = false, inner_accepted = false;
+    std::vector<double> v;
+    double err = 0, norm = 0;   // valid round trips: ||y - x||, ||x||
+};
+
+template<class F>
+static bool hthrows(F f) {
+    try { f(); } catch (const std::exception&) { return true; }
+    return false;
+}
+
+static HVal run_letter(const HL& l, uint64_t seed) {
+    HVal r;
+    const int n = l.n, h = n / 2;
+    auto put = [&](const arr_real& y, const arr_real& x) {
+        r.v.assign(y.begin(), y.end());
+        r.norm = double(l2(x));
+        r.err = y.size() == x.size() ? double(diff_l2(y, x)) : 1e300;
+    };
+    try {
+        switch (l.kind) {
+        case 'F': { const arr_real x = hin_r(n, seed); put(irfft(rfft(x), n), x); break; }
+        case 'H': { const arr_real x = hin_r(n, seed); const arr_cmplx X = rfft(x); put(irfft(arr_cmplx(X.slice(0, h + 1)), n), x); break; }
+        case 'P': { const arr_real x = hin_r(n, seed); const IfftPlanR P(n); put(P(rfft(x)), x); break; }
+        case '1': { const arr_real x = hin_r(n, seed); put(irfft(rfft(x)), x); break; }
+        case 'R': {
+            const arr_real x = hin_r(n, seed);
+            const IfftPlanR P(n);
+            if (!hthrows([&] { (void)P(hin_c(h, seed)); })) r.inner_accepted = true;
+            if (!hthrows([&] { (void)P(hin_c(n + 1, seed)); })) r.inner_accepted = true;
+            put(P(rfft(x)), x);
+            break;
+        }
+        case 'C': {
+            const arr_cmplx x = hin_c(n, seed);
+            const arr_cmplx y = ifft(fft(x));
+            for (int i = 0; i < y.size(); ++i) { r.v.push_back(y[i].re); r.v.push_back(y[i].im); }
+            r.norm = double(l2(x));
+            r.err = y.size() == x.size() ? double(diff_l2(y, x)) : 1e300;
+            break;
+        }
+        case 'T': {
+            const StftCase c = hl_stft_case(n, seed);
+            const arr_real x = hin_r(c.nx, seed);
+            const arr_real win = window::hann(n, false);
+            const auto S = stft(x, win, c.overlap, n, StftRange(c.range));
+            const arr_real y = istft(S, win, c.overlap, n, StftRange(c.range), OverlapMethod::Ola);
+            r.v.assign(y.begin(), y.end());
+            break;
+        }
+        // ---- must throw
+        case 'o': (void)irfft(hin_c(n, seed), n); break;
+        case 'q': (void)irfft(hin_c(h + 1, seed), n); break;
+        case 'O': { const IfftPlanR P(n); (void)P.size(); break; }
+        case 'u': (void)irfft(hin_c(n, seed)); break;
+        case 'w':
+            if (!hthrows([&] { (void)irfft(hin_c(h, seed), n); })) { r.inner_accepted = true; break; }
+            (void)irfft(hin_c(n + 1, seed), n);
+            break;
+        case 'S': { const std::vector<arr_cmplx> F(2, hin_c(h + 1, seed)); (void)istft(F, window::hann(n - 1, false), (n - 1) / 2, n, StftRange::Onesided, OverlapMethod::Wola); break; }
+        case 'U': { const std::vector<arr_cmplx> F(2, hin_c(h + 2, seed)); (void)istft(F, window::hann(n, false), h, n, StftRange::Onesided, OverlapMethod::Ola); break; }
+        case 'V': (void)stft(hin_r(4 * n, seed), window::hann(n, false), n, n, StftRange::Twosided); break;
+        case 'j': { const IfftPlan P(n); (void)P(hin_c(n + 1, seed)); break; }
+        case 'E': {
+            int k = 0;
+            k += hthrows([] { (void)ifft(arr_cmplx()); });
+            k += hthrows([] { (void)irfft(arr_cmplx()); });
+            k += hthrows([&] { (void)irfft(hin_c(3, seed), 0); });
+            k += hthrows([&] { (void)irfft(hin_c(3, seed), -2); });
+            if (k != 4) { r.inner_accepted = true; break; }
+            throw std::runtime_error("rejected");
+        }
+        }
+    } catch (const std::exception&) {
+        r.threw = true;
+        r.v.clear();
+    }
+    return r;
+}
+
+static std::mutex g_href_mx;
+static std::map<std::string, HVal> g_href;
+
+// the result of the call in a fresh thread without any history
+static HVal fresh_reference(const HL& l0, uint64_t seed) {
+    HL l = l0;
+    if (l.kind == 'R') l.kind = 'P';   // the same object without the rejected calls
+    const std::string k = hl_str(l);
+    {
+        std::lock_guard<std::mutex> g(g_href_mx);
+        auto it = g_href.find(k);
+        if (it != g_href.end()) return it->second;
+    }
+    HVal r;
+    std::thread t([&] { r = run_letter(l, seed); });
+    t.join();
+    std::lock_guard<std::mutex> g(g_href_mx);
+    g_href[k] = r;
+    return r;
+}
+
+static bool hsame(const HVal& a, const HVal& b) {
+    return a.threw == b.threw && a.v.size() == b.v.size() && (a.v.empty() || std::memcmp(a.v.data(), b.v.data(), a.v.size() * 8) == 0);
+}
+
+// one history in a fresh thread
+static void run_fault_history(const std::vector<HL>& h, uint64_t seed, bool corr, Res& R) {
+    std::vector<HVal> refs;
+    for (auto& l : h) refs.push_back(fresh_reference(l, seed));
+    std::thread t([&] {
+        bool after_reject = false;
+        for (size_t i = 0; i < h.size(); ++i) {
+            const HL& l = h[i];
+            const std::string js = "{\"history\":" + hist_str(h, int(i)) + ",\"step\":" + std::to_string(i) + ",\"entry\":\"" + hl_entry(l.kind) + "\",\"n\":" + std::to_string(l.n) +
+                                   ",\"seed\":" + std::to_string(seed);
+            const HVal got = run_letter(l, seed);
+            R.n_oracle++;
+            if (hl_rejected(l.kind)) {
+                R.stats["history_rejected_calls"]++;
+                if (!got.threw || got.inner_accepted) R.fails.push_back({"C02:rejected-call-accepted", js + "}"});
+                after_reject = true;
+                continue;
+            }
+            R.stats["history_valid_calls"]++;
+            if (after_reject) R.stats["history_valid_calls_after_a_rejected_call"]++;
+            if (got.inner_accepted) R.fails.push_back({"C02:rejected-call-accepted", js + "}"});
+            if (got.threw) { R.fails.push_back({"C02:valid-call-threw-in-history", js + "}"}); continue; }
+            // (a) the property's bound on the round trip
+            if (l.kind == 'T') {
+                const StftCase c = hl_stft_case(l.n, seed);
+                const size_t nf = R.fails.size();
+                stft_roundtrip(c, window::hann(l.n, false), hin_r(c.nx, seed), false, R);
+                if (R.fails.size() > nf) R.fails.back().second = js + ",\"stft\":" + R.fails.back().second + "}";
+            } else {
+                const ld bound = 64 * ld(l.n) * EPSD;
+                const ld rel = got.norm > 0 ? ld(got.err) / got.norm : (got.err == 0 ? 0 : 1e30L);
+                R.n_oracle++;
+                note(R, "roundtrip_in_history", double(rel / bound));
+                if (!(rel <= bound))
+                    R.fails.push_back({l.kind == 'C' ? "C02:ifft-roundtrip" : (l.kind == 'H' ? "C02:irfft-roundtrip-half" : "C02:irfft-roundtrip"),
+                                       js + ",\"err\":" + vh::jnum(got.err) + ",\"bound\":" + vh::jnum(double(bound * got.norm)) + "}"});
+            }
+            // (b) bit-exact with the fresh thread
+            R.n_oracle++;
+            if (!hsame(got, refs[i])) {
+                double md = 0;
+                for (size_t k = 0; k < got.v.size() && k < refs[i].v.size(); ++k) md = std::max(md, std::fabs(got.v[k] - refs[i].v[k]));
+                R.fails.push_back({"C02:result-depends-on-history", js + ",\"max_abs_diff_to_fresh_thread\":" + vh::jnum(md) + "}"});
+            }
+            // (c) correspondence: the stateless model must reproduce what the implementation returns HERE
+            if (corr && after_reject && l.n <= 64) {
+                const int n = l.n, hh = n / 2;
+                arr_real y(int(got.v.size()));
+                for (int k = 0; k < y.size(); ++k) y[k] = got.v[k];
+                if (l.kind == 'F' || l.kind == 'P' || l.kind == '1' || l.kind == 'R') R.hcorr.push_back({"irfft " + std::to_string(n) + " " + vh::hxs(rfft(hin_r(n, seed))), vh::hxs(y)});
+                else if (l.kind == 'H') R.hcorr.push_back({"irfft " + std::to_string(n) + " " + vh::hxs(arr_cmplx(rfft(hin_r(n, seed)).slice(0, hh + 1))), vh::hxs(y)});
+                else if (l.kind == 'T' && n <= 16) {
+                    const StftCase c = hl_stft_case(n, seed);
+                    const arr_real win = window::hann(n, false);
+                    const auto S = stft(hin_r(c.nx, seed), win, c.overlap, n, StftRange(c.range));
+                    R.hcorr.push_back({"istft " + std::to_string(c.range) + " 0 " + std::to_string(n) + " " + std::to_string(c.overlap) + " " + vh::hxs(win) + " " + flat(S), vh::hxs(y)});
+                }
+            }
+        }
+    });
+    t.join();
+    R.stats["histories_with_rejected_calls"]++;
+}
+
+// the alphabet around the even base length n
+static std::vector<HL> fault_alphabet(int n) {
+    std::vector<HL> A = {{'F', n}, {'H', n}, {'P', n}, {'1', n}, {'R', n}, {'C', n}, {'F', n + 2}, {'o', n + 1}, {'q', n + 1}, {'O', n + 1}, {'u', n + 1},
+                         {'w', n}, {'j', n}, {'E', 0}};
+    if (n >= 4) { A.push_back({'H', n - 2}); A.push_back({'o', n - 1}); A.push_back({'O', n - 1}); }
+    if (n >= 4) { A.push_back({'T', n}); A.push_back({'S', n + 1}); A.push_back({'U', n}); A.push_back({'V', n}); }
+    return A;
+}
+
+static void fault_enumerate(int base, int maxlen, int first, uint64_t seed, Res& R) {   // all histories starting with letter `first`
+    const std::vector<HL> A = fault_alphabet(base);
+    if (first < 0) {   // all first letters
+        for (int f = 0; f < int(A.size()); ++f) fault_enumerate(base, maxlen, f, seed, R);
+        return;
+    }
+    std::vector<int> idx = {first};
+    std::function<void()> rec = [&] {
+        std::vector<HL> h;
+        bool any_rej = false, valid_after = false;
+        for (int i : idx) { h.push_back(A[i]); if (hl_rejected(A[i].kind)) any_rej = true; else if (any_rej) valid_after = true; }
+        // histories without a valid call after a rejected one are prefixes of longer ones or covered by the sweeps
+        if (valid_after && !hl_rejected(h.back().kind)) run_fault_history(h, seed, maxlen <= 2, R);
+        if (int(idx.size()) == maxlen) return;
+        for (int i = 0; i < int(A.size()); ++i) { idx.push_back(i); rec(); idx.pop_back(); }
+    };
+    rec();
+}
+
+static void fault_random(int id, int steps, int maxn, uint64_t seed, Res& R) {
+    vh::Rng rng(seed * 7919 + uint64_t(id) * 104729 + 3);
+    // a few base lengths (more distinct sizes than any small per-thread cache holds), neighbours included
+    std::vector<HL> A;
+    const int nb = rng.range(1, 4);
+    for (int b = 0; b < nb; ++b) {
+        int n = 2 * rng.range(1, maxn / 2);
+        if (rng.next() % 4 == 0) n = 1 << rng.range(1, 11);
+        if (n > maxn) n = maxn;
+        for (auto& l : fault_alphabet(n)) A.push_back(l);
+    }
+    std::vector<HL> h;
+    for (int i = 0; i < steps; ++i) {
+        const HL l = A[rng.next() % A.size()];
+        h.push_back(l);
+        // "try n+1, fall back to n": an odd request is mostly followed by one of its even neighbours
+        if ((l.kind == 'o' || l.kind == 'q' || l.kind == 'O' || l.kind == 'u' || l.kind == 'S') && rng.next() % 4) {
+            static const char V[6] = {'F', 'H', 'P', '1', 'T', 'R'};
+            const int m = (rng.next() % 3) ? l.n - 1 : l.n + 1;
+            char k = V[rng.next() % 6];
+            if (k == 'T' && m < 4) k = 'F';
+            if (m >= 2) h.push_back({k, m});
+        }
+    }
+    run_fault_history(h, seed, id % 8 == 0, R);
+}
+
+// rejected calls for the neighbours of n, issued by the sweeps on their (long-lived) worker threads
+static void reject_neighbours(int n, uint64_t seed, Res& R) {
+    for (int m : {n + 1, n - 1}) {
+        if (m < 1) continue;
+        for (char k : {'o', 'O', 'q'}) {
+            const HVal v = run_letter({k, m}, seed);
+            R.n_oracle++;
+            if (!v.threw) R.fails.push_back({"C02:irfft-odd-accepted", "{\"entry\":\"" + std::string(hl_entry(k)) + "\",\"n\":" + std::to_string(m) + "}"});
+        }
+    }
+    const HVal v = run_letter({'w', n}, seed);
+    if (!v.threw || v.inner_accepted) R.fails.push_back({"C02:irfft-wrong-size-accepted", "{\"entry\":\"irfft(X, n)\",\"n\":" + std::to_string(n) + ",\"X_size\":" + std::to_string(n / 2) + "}"});
+    R.stats["sweep_lengths_after_rejected_neighbours"]++;
+}
+
 // ---------------------------------------------------------------- sampled larger lengths
 static bool is_prime(int n) {
     if (n < 2) return false;
@@ -910,6 +1253,29 @@ int main(int argc, char** argv) {
         Res R;
         stft_misc(seed, a.thorough, R);
         merge(R);
+        vh::unwatch();
+        vh::clear_current();
+    }
+    // 4. histories with rejected calls
+    if (!only || only[0] == '4') {
+        vh::set_current("C02:crash-or-hang", "{\"phase\":\"histories with rejected calls\",\"seed\":" + std::to_string(seed) + "}");
+        vh::watch(a.thorough ? 3000 : 900);
+        struct FT { int base, maxlen, first; };
+        std::vector<FT> tasks;
+        const std::vector<int> bases3 = a.thorough ? std::vector<int>{2, 6, 10, 12, 16, 30, 64, 100, 250, 1000, 2048} : std::vector<int>{2, 10, 12, 64};
+        for (int b : bases3) tasks.push_back({b, 2, -1});   // the shortest histories first (minimal witnesses)
+        for (int b : bases3) for (int f = 0; f < int(fault_alphabet(b).size()); ++f) tasks.push_back({b, 3, f});
+        if (a.thorough) for (int b : {10, 12}) for (int f = 0; f < int(fault_alphabet(b).size()); ++f) tasks.push_back({b, 4, f});
+        parallel_for(int(tasks.size()), {}, [&](int id, Res& R) { fault_enumerate(tasks[id].base, tasks[id].maxlen, tasks[id].first, seed, R); });
+        const int NR = a.thorough ? 600 : 96;
+        parallel_for(NR, {}, [&](int id, Res& R) { fault_random(id, a.thorough ? 60 : 32, id % 5 == 4 ? (a.thorough ? 8192 : 2048) : 512, seed, R); });
+        if (a.thorough) {   // a few large lengths: 2^16, 2^17, 2 x prime, 4 x odd
+            const std::vector<int> big = {65536, 131072, 2 * 46349, 4 * 12345, 98306};
+            parallel_for(int(big.size()), {}, [&](int id, Res& R) {
+                const int n = big[id];
+                run_fault_history({{'o', n + 1}, {'F', n}, {'O', n - 1}, {'H', n}, {'w', n}, {'P', n}, {'u', n + 1}, {'1', n}, {'q', n - 1}, {'H', n - 2}}, seed, false, R);
+            });
+        }
         vh::unwatch();
         vh::clear_current();
     }
